@@ -9,6 +9,7 @@ TRUSTED = [
     "Coq 8.16.1 kernel incl. its bytecode VM (vm_compute); native_compute is not used",
     "axioms: none declared by the development; per-theorem Print Assumptions output is recorded under coverage.assumptions_printed",
     "translator/cxx2coq.py + clang 14 AST/record-layout dumps (tie T): that the emitted bit-vector terms mean what the C++ accessor bodies mean; cross-checked by running every translated accessor against the compiled code",
+    "translator/code2coq.py (tie T2): that the emitted terms of the arithmetic IR (coq/theories/Cir.v: typed wrap-around, failing signed overflow / wide shifts / division by zero, short-circuit && ||, bounds-checked byte reads, accessor calls through their tie-T bit-vector models and recorded read extents) mean what the C++ bodies of the ten guard functions mean",
     "coq/theories/SpecLayout.v: field tables transcribed from the ASAM CMP / TECMP layouts (DESIGN.md Appendix A), not from the library headers",
     "extraction: Require Extraction + ExtrOcamlBasic only (bool, option, list, prod, unit, sumbool mapped to OCaml's; no Extract Constant; Z, positive, nat stay inductive); ocaml/driver.ml (parsing, printing); OCaml 4.13.1",
     "harness/cmp_harness.cpp, lib/*.py generators / independent serialisers / judges / diff; g++ 12.2 with ASan+UBSan (-fno-sanitize=vptr,alignment,nonnull-attribute)",
